@@ -44,6 +44,9 @@ MIN_COUNTERS = {
     "faults_fired": {"quick": 40, "thorough": 400},
     "control_canary_fired": {"quick": 5, "thorough": 5},
     "volume_record_chars": {"quick": 1000000, "thorough": 1000000},
+    "type_print_runs": {"quick": 200, "thorough": 200},
+    "type_print_recorded": {"quick": 150, "thorough": 150},
+    "ctxname_runs": {"quick": 300, "thorough": 300},
 }
 UNIT_TIMEOUT = 150
 MARK = "VYTAINT"
@@ -171,6 +174,9 @@ def units(tier, seed):
     u = [{"kind": "control", "seed": seed}]
     for i in range(len(VOLUME)):
         u.append({"kind": "volume", "i": i})
+    u.append({"kind": "types"})
+    u.append({"kind": "ctxnames", "part": 0})
+    u.append({"kind": "ctxnames", "part": 1})
     for i in range(48 if q else 480):
         u.append({"kind": "model", "seed": seed, "idx": i, "n": 60 if q else 100})
     for i in range(24 if q else 240):
@@ -280,6 +286,13 @@ def _volume_cases():
 
 VOLUME = _volume_cases()
 
+# values of every kind the interpreter can print (exact and inexact numbers, strings, nested / lazy lists,
+# functions) x every printing path: nothing may reach the host, something must reach the record
+VALUE_SNIPPETS = ["5", "1 3/", "2√", "ki", "ke", "kg", "2√1 3/\"", "`str`", "¤", "⟨⟩", "⟨1|`a`|⟨2√⟩⟩", "3ɾ", "3ɾƛ2√;", "3ɾ2√+",
+                  "λ1;", "⟨λ2;|3⟩", "1u/", "2 0.5e", "5∆s", "3∆L", "1°2", "5N√", "kn", "3ɾ:Z", "Þ∞3Ẏ", "5 7ḋ", "`a`3*", "10 3%"]
+PRINTERS = [(",", ""), ("₴", "O"), ("…_", "O"), ("¨,", "O"), ("¨…_", "O"), ("", ""), ("", "j"), ("", "W"), ("", "s"), ("w,", ""),
+            ("wƛ;,", ""), (":,,", ""), ("S,", ""), ("q,", "")]
+
 
 def taint_programs(r):
     p = r.choice(PAYLOADS + STATEMENT_PAYLOADS)
@@ -347,6 +360,50 @@ def run_unit(unit):
         for mech, what in bad:
             add_violation(res, mech, f"program {text[:70]!r}… flags={flags!r}: {what}", dict(unit), program=text[:200])
         res["samples"].append({"mode": "volume", "program": text[:60], "record_chars": len(rec[1])})
+        return res
+    if k == "types":
+        for snip in VALUE_SNIPPETS:
+            for pr, flags in PRINTERS:
+                text = snip + " " + pr
+                got = run_online(text, [], flags, timeout=10)
+                if got["error"] in ("watchdog", "MemoryError"):
+                    continue
+                observe(got)
+                c["type_print_runs"] = c.get("type_print_runs", 0) + 1
+                res["keys"].append(harness.short_hash(["types", text, flags]))
+                rec = got["record"] or {1: "", 2: ""}
+                bad = [b for b in containment_violations(got, text) if b[0] != "error-after-program-propagates" or True]
+                if rec[1]:
+                    c["type_print_recorded"] = c.get("type_print_recorded", 0) + 1
+                for mech, what in bad:
+                    add_violation(res, mech, f"program {text!r} flags={flags!r}: {what}",
+                                  {"kind": "one", "mode": "taint", "text": text, "inputs": [], "flags": flags, "fault": None},
+                                  program=text)
+        res["samples"].append({"mode": "types", "snippets": len(VALUE_SNIPPETS), "printers": len(PRINTERS)})
+        return res
+    if k == "ctxnames":
+        # program-chosen variable names that coincide with attributes of the interpreter's context object
+        from vyxal.context import Context
+
+        names = sorted(a for a in vars(Context()) if a.replace("_", "").isalpha())
+        names = names[unit["part"]::2]
+        p = PAYLOADS[0]
+        for name in names:
+            for val in ("0", "1", "`x`", "⟨⟩"):
+                pre = val + "→_" + name + " "
+                for body, inputs in ((lit(p) + "E", []), (lit(p) + "†", []), ("?E", [p]), (lit(p) + ",", []), ("3ɾ,", [])):
+                    text = pre + body
+                    got = run_online(text, inputs, "", timeout=5)
+                    if got["error"] in ("watchdog", "MemoryError"):
+                        continue
+                    observe(got)
+                    c["ctxname_runs"] = c.get("ctxname_runs", 0) + 1
+                    res["keys"].append(harness.short_hash(["ctxname", text]))
+                    for mech, what in containment_violations(got, text):
+                        add_violation(res, mech, f"program {text!r} inputs={inputs}: {what}",
+                                      {"kind": "one", "mode": "taint", "text": text, "inputs": inputs, "flags": "", "fault": None},
+                                      program=text)
+        res["samples"].append({"mode": "ctxnames", "names": names[:6]})
         return res
     if k == "one":
         cases = [unit]
